@@ -281,7 +281,20 @@ func idpFaultGrammar(r *Rng, provider string) (endpoint string, a Answer) {
 	case 13:
 		a = Answer{Patch: map[string]interface{}{"access_token": ""}, Tag: "empty-access-token"}
 	}
-	if r.Chance(1, 6) {
+	if r.Chance(1, 7) {
+		// a complete, genuine document — and then the answer goes wrong: more bytes follow it, or the connection dies
+		// before the announced end of the body
+		switch r.Intn(4) {
+		case 0:
+			a = Answer{Genuine: true, Suffix: `{"error":"invalid_grant","error_description":"second document"}`, Tag: "genuine-then-error-document"}
+		case 1:
+			a = Answer{Genuine: true, Suffix: "\n<html><body>502 Bad Gateway</body></html>", Tag: "genuine-then-stray-bytes"}
+		case 2:
+			a = Answer{Genuine: true, ShortBy: r.Range(1, 40), Tag: "genuine-then-connection-dies"}
+		case 3:
+			a = Answer{Genuine: true, Suffix: "}", Tag: "genuine-then-brace"}
+		}
+	} else if r.Chance(1, 6) {
 		// a perfectly well-formed answer under a status that is not success
 		st := r.Pick0(201, 202, 204, 206, 301, 302, 400, 401, 403, 404, 409, 418, 429, 500, 502, 503)
 		a = Answer{Status: st, Genuine: true, Tag: fmt.Sprintf("genuine-body-status-%d", st)}
@@ -406,6 +419,12 @@ func genC19(r *Rng) *Plan {
 	case "reset":
 		p.Steps = append(p.Steps, Step{Op: "net", Name: "auth>" + map[string]string{"okta": OktaHost, "google": GoogleAcct}[cfg.Provider], Sub: "reset", Arg: 1})
 	}
+	if r.Chance(1, 4) {
+		// a confirmation whose parameters are split over the query string and the form body: the signed in-domain
+		// triple in one place, another return address in the other
+		p.Steps = append(p.Steps, Step{Op: "authreq", Method: "POST", B: "b1", Endpoint: "sign_out", Sub: "good", Str: "https://app1." + RootDomain + "/",
+			Body: r.Pick("https://evil.com/", "https://login.attacker.example/", "//evil.com", "https://app2."+RootDomain+"/other"), Arg2: r.Intn(2)})
+	}
 	so := Step{Op: "signout", B: "b1", Host: host}
 	switch r.Intn(8) {
 	case 0:
@@ -464,6 +483,21 @@ func genC11(r *Rng) *Plan {
 		opts["allowed_groups"] = r.Pick0s([][]string{{"eng"}, {"ops", "eng"}, {"nobody-has-this"}})
 	}
 	cfg.Routes = []Route{routeFor(1, opts)}
+	second := r.Chance(1, 2)
+	if second {
+		// another upstream of the same deployment with rules of its own: satisfying a rule of one upstream
+		// admits to that upstream only
+		o2 := map[string]any{}
+		switch r.Intn(3) {
+		case 0:
+			o2["allowed_email_addresses"] = []string{"zed@nowhere.test"}
+		case 1:
+			o2["allowed_email_domains"] = []string{"nowhere.test"}
+		case 2:
+			o2["allowed_groups"] = []string{"nobody-has-this"}
+		}
+		cfg.Routes = append(cfg.Routes, routeFor(2, o2))
+	}
 	var users []UserSpec
 	picked := map[string]bool{}
 	for len(users) < 4 {
@@ -505,6 +539,11 @@ func genC11(r *Rng) *Plan {
 		p.Steps = append(p.Steps, Step{Op: "get", B: b, Host: host, Target: "/validation-due", Dt: cfg.ValidTTL + 3*time.Second})
 		if r.Chance(1, 2) {
 			p.Steps = append(p.Steps, Step{Op: "get", B: b, Host: host, Target: "/refresh-due", Dt: cfg.TokenTTL + 3*time.Second})
+		}
+		if second && r.Chance(1, 2) {
+			b2 := b + "2"
+			p.Steps = append(p.Steps, Step{Op: "login", B: b2, User: u.Email, Host: cfg.Routes[1].From, Target: "/"})
+			p.Steps = append(p.Steps, Step{Op: "get", B: b2, Host: cfg.Routes[1].From, Target: "/no-check-due", Dt: 2 * time.Second})
 		}
 	}
 	return p
